@@ -715,4 +715,37 @@ theorem appendBaseUsername_auth (l : L) (x : Bytes) (hx : x ≠ []) (ha : l.auth
     simp only [h1, List.cons_append, List.headD_cons, bne_self_eq_false, Bool.false_and, Bool.false_eq_true, ↓reduceIte]
     cases hqq : l.query <;> cases hf : l.frag <;> close_agg [h1, h2, hqq, hf]
 
+/-- the same with the hypothesis only where it is needed: once there are credentials the '@' is already in place and
+    the comparison is not reached -/
+theorem appendBaseUsername_auth' (l : L) (x : Bytes) (hx : x ≠ []) (ha : l.auth = true) (hna : TailNoAt l)
+    (hq : l.user = [] ∧ l.pass = [] → x.length ≠ l.host.length) :
+    appendBaseUsername (layout l) x = layout { l with user := l.user ++ x } := by
+  unfold appendBaseUsername
+  rw [addAuthoritySlashes_auth l ha]
+  have hxe : x.isEmpty = false := by cases x <;> simp_all
+  have hT : (tailS l).headD 0 ≠ 0x40 := hna
+  have hne : l.user ++ x ≠ [] := by cases l.user <;> simp_all
+  have h2 : atS (l.user ++ x) l.pass = [0x40] := atS_of_cred (fun h => hne h.1)
+  simp only [hxe, Bool.false_eq_true, ↓reduceIte]
+  rw [sinsert_eq (x := x) (A := l.scheme ++ authS l.auth ++ l.user) (B := passS l.pass ++ (atS l.user l.pass ++ tailS l))
+    (by rw [buf_split]; simp [List.append_assoc]) (by simp [layout]; omega)]
+  rw [at_eq (A := l.scheme ++ authS l.auth ++ l.user ++ x ++ passS l.pass) (B := atS l.user l.pass ++ tailS l)
+    (by simp [List.append_assoc]) (by simp [layout]; omega)]
+  by_cases hc : l.user = [] ∧ l.pass = []
+  · have hq' := hq hc
+    obtain ⟨hu, hp⟩ := hc
+    have hcond : ((layout l).hs + x.length != (layout l).he) = true := by
+      simp [layout, hu, hp, atS, passS]; omega
+    have h3 : atS [] [] = ([] : Bytes) := rfl
+    have h0 : passS [] = ([] : Bytes) := rfl
+    have hne' : ((tailS l).headD 0 != 0x40) = true := by simpa using hT
+    simp only [hu, hp, h3, List.nil_append, hne', hcond, Bool.and_self, ↓reduceIte]
+    rw [sinsert_eq (x := [0x40]) (A := l.scheme ++ authS l.auth ++ [] ++ x ++ passS []) (B := tailS l)
+      (by simp [h0, List.append_assoc]) (by simp [layout, hu, hp, h0]; omega)]
+    have h2' : atS x [] = [0x40] := atS_of_cred (fun h => hx h.1)
+    cases hqq : l.query <;> cases hf : l.frag <;> close_agg [hu, hp, h0, h3, h2', hqq, hf]
+  · have h1 := atS_of_cred hc
+    simp only [h1, List.cons_append, List.headD_cons, bne_self_eq_false, Bool.false_and, Bool.false_eq_true, ↓reduceIte]
+    cases hqq : l.query <;> cases hf : l.frag <;> close_agg [h1, h2, hqq, hf]
+
 end AdaVerif.Lemmas.AggL
